@@ -887,6 +887,24 @@ fn run_cache_put(p: &Plan, rep: &mut RunReport, root: &Path) {
         let (off, data) = vks[k].slice(a, b);
         let _ = cache.put(&vks[k].key, &ChunkRange { start: a, end: b }, &off, &data);
     }
+    // one history in two: the cache is closed and re-opened before the operation, so that the items it meets were loaded
+    // by the start-up scan (not yet verified) rather than put by this instance
+    let cache = if p.seed % 2 == 0 {
+        drop(cache);
+        match DiskCache::initialize(&cfg) {
+            Ok(c) => {
+                rep.count("probe:cache_reopened_before_the_interrupted_put", 1);
+                c
+            },
+            Err(_) => {
+                utils::verif::install(prev);
+                file_utils::verif::install(fprev);
+                return;
+            },
+        }
+    } else {
+        cache
+    };
     // make sure every key directory exists and is watched before the operation
     for v in &vks {
         let kd = key_dir_name(&v.key);
